@@ -46,7 +46,7 @@ ObsViol(r) ==
         <<"C15", "error_delivered_once", P_ErrOnce(c, g)>>,
         <<"C15", "set_read_after_error_delivered", P_ErrNoLater(c, g)>>,
         <<"C15", "draining_consumer_gets_earlier_sets_error_end", P_ErrDrain(c, g, res)>>,
-        <<"C15", "init_failure_returned_as_error", P_InitFailuresSurface(c, res)>>,
+        <<"C15", "init_failure_returned_as_error", P_InitFailuresSurface(c, res, o.nds)>>,
         <<"C16", "more_than_queue_len_plus_one_data_sets", P_BoundedSets(c, o.nds)>>,
         <<"C16", "reader_ahead_of_consumer", P_ReaderAhead(c, o.max_ahead)>>,
         <<"C16", "data_set_not_recycled", P_RecycledOnly(c, g)>>,
